@@ -10,6 +10,7 @@ explored execution, not what the checker believes.
 import os
 import shutil
 import tempfile
+import threading
 
 from verif import core
 from verif.gen import mcprog2
@@ -143,6 +144,8 @@ class Evaluator:
         self.ctx, self.vm, self.mc, self.workdir = ctx, vm, mc, workdir
         self.selftest = selftest          # (config name, mutate function): corrupt the log of that configuration
         self.t_ref = 300 if ctx.tier == "quick" else 1800
+        self.keys = set()                 # every violation key of the run with the case that produced it (evidence)
+        self.lock = threading.Lock()
 
     def report(self, rule, detail, text, cfg, case, feat, rc, max_errors, extra=None):
         w = {"name": case["name"], "spec": case["spec"], "pop": case["pop"], "config": cfg.to_json(),
@@ -151,7 +154,10 @@ class Evaluator:
             w.update(extra)
         what = "%s [%s, max-errors:%d] on program '%s' (%s): %s\n%s" % (
             rule, cfg.tag(), max_errors, case["name"], feat, text, case["spec"].rstrip())
-        self.ctx.violation(key_of(rule, detail, cfg, feat, rc), what, w)
+        key = key_of(rule, detail, cfg, feat, rc)
+        with self.lock:
+            self.keys.add("%s  [%s]" % (key, case["name"]))
+        self.ctx.violation(key, what, w)
 
     def evaluate(self, case, only=None):
         """Reference + every configuration on one program. `only`: restrict to one configuration (replay)."""
@@ -295,6 +301,7 @@ def run(ctx):
         ev = Evaluator(ctx, vm, mc, wd, selftest=_selftest_from_env())
         cases = generate(ctx)
         ctx.pmap(ev.evaluate, cases)
+        ctx.extra["violation_keys"] = sorted(ev.keys)
     finally:
         shutil.rmtree(wd, ignore_errors=True)
 
